@@ -124,12 +124,19 @@ func runPair(c *ctx, id string, cfg runCfg, oldS, newS []Stmt, style sqlStyle) {
 	}
 }
 
-// runRoutes (C03): one schema loaded by two different routes must diff to nothing
-func runRoutes(c *ctx, id string, cfg runCfg, s *gSchema) {
+func routeNames(dialect string) []string {
 	routes := []string{"canonical", "grouped", "per-statement", "random-spelling", "own-dump"}
-	if cfg.dialect == "mysql" {
+	if dialect == "mysql" {
 		routes = append(routes, "explicit-using-btree", "inline-keys", "table-level-pk")
 	}
+	return routes
+}
+
+// runRoutes (C03): one schema loaded by two different routes must diff to nothing; fixed = "" picks the two routes at random
+func runRoutes(c *ctx, id string, cfg runCfg, s *gSchema) { runRoutesFixed(c, id, cfg, s, "", "") }
+
+func runRoutesFixed(c *ctx, id string, cfg runCfg, s *gSchema, fix1, fix2 string) {
+	routes := routeNames(cfg.dialect)
 	loadRoute := func(r string) (*sqlize.Sqlize, string) {
 		z := cfg.newSqlize()
 		plain := sqlStyle{dialect: cfg.dialect}
@@ -188,8 +195,11 @@ func runRoutes(c *ctx, id string, cfg runCfg, s *gSchema) {
 		}
 		return z, e
 	}
-	r1 := routes[c.rng.Intn(len(routes))]
-	r2 := routes[c.rng.Intn(len(routes))]
+	r1, r2 := fix1, fix2
+	if fix1 == "" {
+		r1 = routes[c.rng.Intn(len(routes))]
+		r2 = routes[c.rng.Intn(len(routes))]
+	}
 	a, e1 := loadRoute(r1)
 	b, e2 := loadRoute(r2)
 	ed := guard(func() string { b.Diff(*a); return "ok" })
@@ -209,6 +219,24 @@ func suitePair(c *ctx) {
 		n = c.n
 	}
 	runWitnesses(c)
+	// a fixed schema by every ordered pair of routes (C03-a, C03-d: several inline keys, a USING HASH index, an inline
+	// primary key, two tables)
+	{
+		ws := &gSchema{Tables: []*gTable{
+			{Name: "t", Cols: []ColDef{{Name: "id", Typ: "int(11)", Opts: []Opt{{Kind: "notnull"}, {Kind: "pk"}}}, {Name: "email", Typ: "varchar(64)"}, {Name: "name", Typ: "varchar(64)", Opts: []Opt{{Kind: "notnull"}}}, {Name: "n", Typ: "int(11)"}},
+				Idx: []gIndex{{Name: "idx_email", Cols: []string{"email"}, Unique: true}, {Name: "idx_name", Cols: []string{"name"}}, {Name: "idx_n", Cols: []string{"n", "name"}, Using: "HASH"}}},
+			{Name: "u", Cols: []ColDef{{Name: "x", Typ: "int(11)"}, {Name: "y", Typ: "int(11)"}}, Idx: []gIndex{{Name: "idx_y", Cols: []string{"y"}}}}}}
+		rn := routeNames("mysql")
+		k := 0
+		for _, r1 := range rn {
+			for _, r2 := range rn {
+				if r1 != r2 {
+					runRoutesFixed(c, fmt.Sprintf("wrt%d", k), runCfg{dialect: "mysql", lower: k%2 == 0}, ws, r1, r2)
+					k++
+				}
+			}
+		}
+	}
 	for i := 0; i < n; i++ {
 		dialect := []string{"mysql", "mysql", "mysql", "postgres", "sqlite3"}[c.rng.Intn(5)]
 		if c.dialect != "" {
